@@ -301,6 +301,7 @@ func main() {
 	facts := flag.String("facts", "", "directory for facts_<id>.json")
 	prop := flag.String("prop", "all", "property id or all")
 	shapeProps := flag.String("shape-props", "", "properties.jsonl: write the declaration shape of each property's anchor files to <facts>/shape_<id>.txt")
+	shapeExtra := flag.String("shape-extra", "", "comma separated further files whose declarations belong to the shape")
 	flag.Parse()
 	var ids []string
 	if *prop == "all" {
@@ -325,7 +326,7 @@ func main() {
 	rc := 0
 	if *shapeProps != "" && *facts != "" {
 		for _, id := range strings.Split(*prop, ",") {
-			if err := writeShape(*repo, *shapeProps, id, *facts); err != nil {
+			if err := writeShape(*repo, *shapeProps, id, *facts, *shapeExtra); err != nil {
 				fmt.Printf("PROBLEM %s: shape: %v\n", id, err)
 			}
 		}
